@@ -1,6 +1,6 @@
 (* C13 — timeline.  Headline theorems only; lemmas in Proofs/TimelineProofs.v; model Model/Timeline.v.
    Times are 10 s slots since year 1; st_get calls tl_generate on the range rounded by s_normalize_unix. *)
-From Pyro Require Import Model.Base Model.Segment Model.Timeline Proofs.SegStruct Proofs.TimelineProofs.
+From Pyro Require Import Model.Base Model.Segment Model.Timeline Proofs.SegmentProofs Proofs.SegStruct Proofs.TimelineProofs.
 Local Open Scope Z_scope.
 
 Theorem C13_shape_start : forall a b, tl_st (tl_generate a b) = a.
@@ -37,6 +37,48 @@ Theorem C13_populate_shape : forall (segs : list segment) tl,
   length (tl_samples tl') = length (tl_samples tl).
 Proof. exact tl_populate_all_shape. Qed.
 Print Assumptions C13_populate_shape.
+
+(* C13_entries.  Full statement (DESIGN.md): with 10 s buckets, entry i = 0 iff no matching upload overlaps
+   bucket i, else 1 + the samples ingested in it, summed over the matching series.
+   Proved here is the structural half, for every well-formed segment tree (SegStruct.wf: what every
+   history of valid writes produces, C03_reachable_wf): populating a 10 s timeline visits exactly the 10 s
+   nodes inside the range and bumps the entry of each node's slot by the node's sample counter
+   (first bump of an entry adds 1).  The other half — a 10 s node exists at slot t iff some upload covers t,
+   and its counter is the sum of the uploads' (floating point) shares — is an invariant of s_put on the
+   samples field that is not proved; the correspondence check CorrC13 carries it. *)
+Theorem C13_entries_partial : forall lvl a b n buf, a < b -> wf lvl n ->
+  tl_populate_node lvl a b 0 n buf = fold_left (bump_leaf a b) (leaves lvl n) buf.
+Proof. exact populate_leaves. Qed.
+Print Assumptions C13_entries_partial.
+
+(* one bump touches exactly the entry of its slot: 0 becomes 1 + samples, x > 0 becomes x + samples *)
+Theorem C13_bump_entry : forall i smp buf idx k, (k < length buf)%nat ->
+  nth k (bump_range i (i + 1) smp idx buf) 0%N =
+  if idx + Z.of_nat k =? i then ((if (nth k buf 0 =? 0)%N then 1 else nth k buf 0) + smp)%N else nth k buf 0%N.
+Proof. exact bump_range_nth. Qed.
+Print Assumptions C13_bump_entry.
+
+Definition ex_ws : list write :=
+  [ {| w_a := 6373559600; w_b := 6373559601; w_smp := 5%N; w_beta := 0 |};
+    {| w_a := 6373559602; w_b := 6373559603; w_smp := 7%N; w_beta := 0 |};
+    {| w_a := 6373559600; w_b := 6373559601; w_smp := 2%N; w_beta := 0 |} ].
+
+Example C13_entries_nonvacuous :
+  match s_root (fst (run_writes ex_ws)) with
+  | Some (lvl, n) =>
+      wf lvl n /\ leaves lvl n = [(6373559600, 7%N); (6373559602, 7%N)] /\
+      tl_samples (tl_populate (fst (run_writes ex_ws)) (tl_generate 6373559599 6373559604)) = [0; 8; 0; 8; 0]%N
+  | None => False
+  end.
+Proof.
+  assert (Hok : seg_ok 63 (fst (run_writes ex_ws))).
+  { apply run_writes_ok. unfold ex_ws. repeat (apply Forall_cons; [unfold valid_write, valid_range; cbn; lia|]). apply Forall_nil. }
+  unfold seg_ok in Hok. destruct (s_root (fst (run_writes ex_ws))) as [[lvl n]|] eqn:E.
+  - destruct Hok as (_ & Hwf & _). split; [exact Hwf|].
+    assert (E' : s_root (fst (run_writes ex_ws)) = Some (lvl, n)) by exact E. vm_compute in E'. injection E' as <- <-.
+    split; [vm_compute; reflexivity|]. vm_compute. reflexivity.
+  - vm_compute in E. discriminate.
+Qed.
 
 Example C13_shape_nonvacuous :
   (* 10240 slots: still 10 s buckets, 10240 entries; 10241 slots: 100 s buckets, 1024 entries *)
